@@ -80,5 +80,8 @@ def run(ctx):
     ctx.rule("C08-R5", "the worker's select-branch futures accept_uni/accept_bi/accept_datagram carry no stream-read progress")
     shared.acceptor_branches(ctx, "C08-R5", idx)
 
+    ctx.rule("C08-R7", "a fault on one peer stream before its preamble is read stays a per-stream event (IO), never a connection-level H3 error")
+    shared.uni_upgrade_maps(ctx, "C08-R7")
+
     ctx.rule("C08-R6", "a dequeued stream of the session is returned, never refused: only foreign-session streams are stopped")
     shared.driver_session_filters(ctx, "C08-R6", which=("accept_uni", "accept_bi"))
